@@ -2,6 +2,7 @@ SPECIFICATION Spec
 CONSTANTS
   Defect = "none"
   MaxChanges = 2
+  FocusKeys = {}
 INVARIANTS Reaches ZeroIsMeaningful GatedByOwnFlag PartitionExact OrderPreserved
 PROPERTY NoCrossTalk
 CHECK_DEADLOCK FALSE
